@@ -32,6 +32,13 @@ static inline void out_flt(struct tokout* o, double v) { num_state(o); tok_add(o
 float __CPROVER_uninterpreted_fmul(float, float); float __CPROVER_uninterpreted_fdiv(float, float);
 #define UF_MUL(a, b) __CPROVER_uninterpreted_fmul(a, b)
 #define UF_DIV(a, b) __CPROVER_uninterpreted_fdiv(a, b)
+/* glue functions readSymbols / writeSymbols: their callees are recorded stubs (contracts in units number and numtext) */
+struct iss { int text; };
+int g_rr_result, g_pi_result, g_rf_result, g_wr_result; unsigned g_rr_value, g_pi_value; unsigned g_rendered, g_written; unsigned g_rf_calls, g_wr_calls; int g_parsed_text;
+static inline result_t glue_readRawValue(const NDT* t, size_t offset, size_t length, const SymbolString* in, unsigned* value) { if (g_rr_result == RESULT_OK) *value = g_rr_value; return (result_t)g_rr_result; }
+static inline result_t glue_readFromRawValue(const NDT* t, unsigned value, unsigned fmt, struct tokout* o) { g_rendered = value; g_rf_calls = g_rf_calls + 1; return (result_t)g_rf_result; }
+static inline result_t glue_parseInput(const NDT* t, const int text, unsigned* value) { g_parsed_text = text; if (g_pi_result == RESULT_OK) *value = g_pi_value; return (result_t)g_pi_result; }
+static inline result_t glue_writeRawValue(const NDT* t, unsigned value, size_t offset, size_t length, SymbolString* out, size_t* used) { g_written = value; g_wr_calls = g_wr_calls + 1; return (result_t)g_wr_result; }
 #include "gen_protos.h"
 #include "gen_funcs.inc"
 #include "../number/spec.h"
@@ -90,4 +97,19 @@ void h_render(void) {
     }
   }
   __CPROVER_assert(o.cur_width == 0, "[C12] no field width is left behind on the stream");
+}
+
+SymbolString nondet_SS(void);
+void h_glue(void) {
+  NDT t = nondet_NDT(); SymbolString in = nondet_SS(), out = nondet_SS(); struct tokout o; struct iss text; size_t used;
+  g_rr_result = nondet_int(); g_pi_result = nondet_int(); g_rf_result = nondet_int(); g_wr_result = nondet_int(); g_rr_value = nondet_uint(); g_pi_value = nondet_uint(); text.text = nondet_int();
+  __CPROVER_assume(g_rr_result <= 1 && g_rr_result >= -20 && g_pi_result <= 1 && g_pi_result >= -20 && g_rf_result <= 1 && g_rf_result >= -20 && g_wr_result <= 1 && g_wr_result >= -20);
+  g_rf_calls = 0; g_wr_calls = 0; o.n = 0;
+  result_t r = NDT_readSymbols(&t, nondet_size(), nondet_size(), &in, nondet_uint(), &o);
+  if (g_rr_result != RESULT_OK) { __CPROVER_assert(r == g_rr_result && g_rf_calls == 0, "[C05] an undecodable pattern is rejected and nothing is shown"); }
+  else { __CPROVER_assert(g_rf_calls == 1 && g_rendered == g_rr_value && r == g_rf_result, "[C05] exactly the decoded raw value is rendered"); CANARY("read"); }
+  result_t w = NDT_writeSymbols(&t, nondet_size(), nondet_size(), &text, &out, &used);
+  __CPROVER_assert(g_parsed_text == text.text, "[C06,C07] the whole input text is parsed");
+  if (g_pi_result != RESULT_OK) { __CPROVER_assert(w == g_pi_result && g_wr_calls == 0, "[C07] a rejected text writes nothing"); }
+  else { __CPROVER_assert(g_wr_calls == 1 && g_written == g_pi_value && w == g_wr_result, "[C06,C07] exactly the parsed raw value is written"); CANARY("write"); }
 }
